@@ -320,12 +320,15 @@ pub fn check_fq2(c: &Fq2Case, info: &mut Info) -> Result<(), String> {
     Ok(())
 }
 
+crate::long_sub!(run_long_history, [0, 1, 2]);
+
 pub fn def() -> PropDef {
     PropDef {
         id: "C18",
         rule: "Fq / Fr elements (boundary + uniform), their squares (guaranteed residues) and squares times the least non-residue (guaranteed non-residues); Fq2 elements: general, squares, squares times (1+u), embedded Fq elements (real / imaginary root), purely imaginary, elements constructed backwards from a structured intermediate alpha = a^((q-1)/2) of the square-root algorithm (norm +-1 with a prescribed component), Fr elements with a prescribed order of the 2-power part (every Tonelli-Shanks depth 0..32); canonical limbs built from two words (repeated / cancelling limbs); comparison partner from the same generator (incl. equal u-coefficients). Oracle: Euler's criterion (of the norm for Fq2), b^2 = a in the model, parity of the canonical integer, integer / lexicographic order. Non-trivial = a not in {0,1}; distinct = distinct cases",
         needs_pairing: false,
         subs: vec![
+            Box::new(crate::engine::EnumSub { name: "long-history", rule: super::longhist::RULE, run: run_long_history, replay: super::longhist::replay, exhaustive: false }),
             Box::new(Sub { name: "fq", rule: "Fq sqrt / legendre / sgn0 / order / negate_if", quick: 120_000, thorough: 400_000, strategy: || boxed(prime_case_strategy(6)), check: check_fq_prime }),
             Box::new(Sub { name: "fr", rule: "Fr sqrt (Tonelli-Shanks) / legendre / order", quick: 120_000, thorough: 400_000, strategy: || boxed(prime_case_strategy(4)), check: check_fr_prime }),
             Box::new(Sub { name: "fq2", rule: "Fq2 sqrt / legendre (of the norm) / sgn0 / lexicographic order / negate_if", quick: 120_000, thorough: 400_000, strategy: || boxed(fq2_case_strategy()), check: check_fq2 }),
